@@ -177,6 +177,8 @@ package htlcswitch
 //@        retn(NextLocalHtlcIndex, 1) == nil && arg(1).BlockHeight == ret(ShortChanID).BlockHeight &&
 //@        arg(1).TxIndex == ret(ShortChanID).TxIndex && arg(1).TxPosition == ret(ShortChanID).TxPosition
 //@   site call NextLocalHtlcIndex: assert arg(0) == activeChannel
+//@   // every non-pending channel other than the local source gets trimmed (or the function fails)
+//@   loop 0 step activeChannel.IsPending || called(ShortChanID) && (ret(ShortChanID) == hop.Source || called(TrimOpenCircuits))
 //@
 //@ func (cm *circuitMap) OpenCircuits
 //@   props C07
